@@ -18,6 +18,7 @@ LEVEL_TEXT = ("Full-strength theorems over a small-step model with explicit yiel
               "running the real classes with a fake socket factory whose creation and drain latencies are drawn from the seeded scheduler under the "
               "virtual loop; the recorded writes are compared with the property directly and the number of factory calls with the model. "
               "json.dumps of str/mapping parts is the model's parameter (compared for generated values, no floats). CANCELLATION (Core/ZmqCancel, Props/C19Cancel): the transition system extended by `cancel k` for every suspended sender (a cancelled waiter leaves the lock queue, a holder cancelled inside the factory releases the lock and leaves no socket): for EVERY history with any number of cancellations at most one factory call ever completes and the socket is never replaced (one_socket_cancel, socket_never_replaced), the lock is never orphaned, a cancelled sender never prevents a non-cancelled one from writing (cancel_does_not_block, ensure_gets_socket: a finite cancel-free continuation exists from every reachable state), written ++ in-hand ++ pending = queued / origin for queue and direct senders (exactly-once in order, at most once for cancelled senders), histories without cancel are exactly those of the base system (cancel_free_is_base, base_is_cancel_free); the shared un-shielded future variant provably loses the stream after one cancellation (seeded_one_cancel_kills_stream). Cancellation is taken as atomic at its linearisation point (asyncio delivers it when the task next runs): an informal argument, not a theorem.")
+LEVEL_ADDENDUM = "Session 8: the peer's pace is drawn per run from microseconds to SECONDS per accepted message (virtual time); parts outside the serialisation rule are rejected with nothing written."
 LEVEL_NOTE = "Trusts: Lean kernel; hand-written transition system (asyncio.Lock modelled as FIFO); aiozmq/zmq are replaced by a fake stream; json.dumps is a parameter."
 ASSUMPTIONS = ["asyncio.Lock is FIFO-fair", "message parts are bytes, str, mappings or pydantic models"]
 
